@@ -76,6 +76,12 @@ Theorem C17_cap_refuted_one_level_decorator :
 Proof. exact refuted_one_level. Qed.
 Print Assumptions C17_cap_refuted_one_level_decorator.
 
+(** The MsgExec clause returning early: messages after a MsgExec in the same list are never checked. *)
+Theorem C17_cap_refuted_exec_early_return :
+  exists h, only_txs h /\ breaks_cap (run_history cfg_exec_early_return world_plain (st0 0) h).
+Proof. exact refuted_exec_early_return. Qed.
+Print Assumptions C17_cap_refuted_exec_early_return.
+
 (** Recursive decorator, wasm handler without the check (the tree before fix 248a6e6). *)
 Theorem C17_cap_refuted_without_wasm_check :
   exists h, only_txs h /\ breaks_cap (run_history cfg_no_wasm_check world_plain (st0 0) h).
